@@ -46,16 +46,25 @@ Inductive rnode :=
 | RPass (uid : ukey) (key : N)
 | RDone (uid : ukey) (key : N) (sh : dshape)      (* completed in an earlier run of the sequence *)
 | RSub (uid : ukey) (key : N) (inf : info) (stages : list (list rnode))
-| RTools (uid : ukey) (key : N) (inf : info) (calls : list rcall).
+| RTools (uid : ukey) (key : N) (inf : info) (calls : list rcall)
+| RStop (armed : nat).
+    (* a configured interrupt point (compile options WithInterruptBeforeNodes / WithInterruptAfterNodes
+       of the graph of this level), a stage of its own between the stage after which and the stage
+       before which the run stops: while armed the run that arrives here is interrupted (no node
+       asked for it, none has failed: handleInterrupt), the run that resumes it passes
+       (restoreTasks does not look at the interrupt points again) *)
 
 Definition rnode_key (n : rnode) : N :=
   match n with
   | RLambda _ k _ _ _ _ => k | RPass _ k => k | RDone _ k _ => k | RSub _ k _ _ => k | RTools _ k _ _ => k
+  | RStop _ => 0%N
   end.
 Definition rnode_uid (n : rnode) : ukey :=
   match n with
   | RLambda u _ _ _ _ _ => u | RPass u _ => u | RDone u _ _ => u | RSub u _ _ _ => u | RTools u _ _ _ => u
+  | RStop _ => 0%N
   end.
+Definition rnode_is_node (n : rnode) : bool := match n with RStop _ => false | _ => true end.
 
 Definition call_intr (c : rcall) : bool := match snd c with O => false | S _ => true end.
 Definition proj_call (c : rcall) : ukey * info * N * bool :=
@@ -71,6 +80,7 @@ Fixpoint proj (n : rnode) : list gnode :=
   | RDone uid key sh => []
   | RSub uid key inf stages => [GSub uid key inf (map (flat_map proj) stages)]
   | RTools uid key inf calls => [GTools uid key inf (map proj_call calls)]
+  | RStop armed => match armed with O => [] | S _ => [GStop] end
   end.
 Definition proj_stages (stages : list (list rnode)) : list (list gnode) := map (flat_map proj) stages.
 
@@ -112,7 +122,7 @@ Fixpoint path_live_node (n : rnode) (tl : list N) {struct n} : bool :=
                  (fix in_stage (ns : list rnode) : bool :=
                     match ns with
                     | [] => in_stages sts'
-                    | m :: ns' => if N.eqb (rnode_key m) k then path_live_node m tl' else in_stage ns'
+                    | m :: ns' => if rnode_is_node m && N.eqb (rnode_key m) k then path_live_node m tl' else in_stage ns'
                     end) st
              end) stages
       end
@@ -122,7 +132,7 @@ Definition path_live (stages : list (list rnode)) (p : list N) : bool :=
   match p with
   | [] => true
   | k :: tl =>
-      match find (fun m => N.eqb (rnode_key m) k) (List.concat stages) with
+      match find (fun m => rnode_is_node m && N.eqb (rnode_key m) k) (List.concat stages) with
       | None => true
       | Some m => path_live_node m tl
       end
@@ -172,6 +182,7 @@ Fixpoint node_outcome (opts : list copt) (n : rnode) {struct n} : outcome :=
       if negb (graph_ok (map (flat_map proj) stages) sopts) then OutFail
       else stages_outcome (map (map (node_outcome sopts)) stages)
   | RTools _ _ _ calls => calls_outcome calls
+  | RStop armed => match armed with O => OutOk | S _ => OutIntr end
   end.
 
 Definition run_outcome (opts : list copt) (stages : list (list rnode)) : outcome :=
@@ -180,7 +191,11 @@ Definition run_outcome (opts : list copt) (stages : list (list rnode)) : outcome
 
 (* ------------------------------------------------------------------ the plan after an interrupted run *)
 
-Definition done_of (n : rnode) : rnode := RDone (rnode_uid n) (rnode_key n) (shape_of n).
+Definition done_of (n : rnode) : rnode :=
+  match n with
+  | RStop _ => RStop 0     (* an interrupt point that has been passed stays what it is: no node *)
+  | _ => RDone (rnode_uid n) (rnode_key n) (shape_of n)
+  end.
 
 Definition resume_call (c : rcall) : rcall :=
   let '(cu, cinf, natives, fails, intr) := c in (cu, cinf, natives, fails, pred intr).
@@ -208,6 +223,7 @@ Fixpoint resume_node (opts : list copt) (n : rnode) {struct n} : rnode :=
       RSub uid key inf
         (resume_walk (map (map (fun m => (m, node_outcome sopts m, resume_node sopts m))) stages))
   | RTools uid key inf calls => RTools uid key inf (map resume_call calls)   (* the whole node again *)
+  | RStop armed => RStop (pred armed)
   end.
 
 Definition resume_stages (opts : list copt) (stages : list (list rnode)) : list (list rnode) :=
@@ -225,6 +241,7 @@ Fixpoint node_intr (n : rnode) : nat :=
   | RSub _ _ _ stages =>
       list_sum (map (fun st => list_sum (map node_intr st)) stages)
   | RTools _ _ _ calls => list_sum (map (fun c : rcall => snd c) calls)
+  | RStop armed => armed
   end.
 Definition total_intr (stages : list (list rnode)) : nat :=
   list_sum (map (fun st => list_sum (map node_intr st)) stages).
@@ -236,6 +253,7 @@ Fixpoint ruids (n : rnode) : list ukey :=
   | RDone uid _ _ => [uid]
   | RSub uid _ _ stages => uid :: flat_map (flat_map ruids) stages
   | RTools uid _ _ calls => uid :: map (fun c : rcall => fst (fst (fst (fst c)))) calls
+  | RStop _ => []
   end.
 Definition rstages_uids (stages : list (list rnode)) : list ukey := flat_map (flat_map ruids) stages.
 
